@@ -193,6 +193,24 @@ pub fn step(st: &mut St, toks: &[&str]) -> String {
             };
             apply(c, pat_bytes(sd, l as usize))
         }
+        // ONE request of `n` zero bytes (n >= 128); answer = first 64 and last 64 output bytes
+        ["chacha", "bigapply", slot, len] => {
+            let Some(n) = num(len) else {
+                return "bad-op".into();
+            };
+            let Some(c) = num(slot).and_then(|s| st.ciphers.get_mut(&s)) else {
+                return "bad-op".into();
+            };
+            if n < 128 {
+                return "bad-op".into();
+            }
+            let mut data = vec![0u8; n as usize];
+            match guard(|| with!(c, x, x.try_apply_keystream(&mut data))) {
+                None => "panic".into(),
+                Some(Ok(())) => format!("{}:{}", hex_nodash(&data[..64]), hex_nodash(&data[data.len() - 64..])),
+                Some(Err(_)) => "err".into(),
+            }
+        }
         ["chacha", "pos", slot, ty] => {
             let Some(c) = num(slot).and_then(|s| st.ciphers.get(&s)) else {
                 return "bad-op".into();
